@@ -298,6 +298,10 @@ def dispatch (args : List String) : Option String :=
   | "transcript" :: items => do
       let ts ← items.mapM parseItem
       pure (tTranscript ts.flatten)
+  -- `ChallengeBuilder::finish` after SHA3 / `ChannelId::to_scalar`: 32 bytes -> scalar (C12, C06)
+  | ["raw-scalar", d] => do
+      let bs ← parseBytes d
+      if bs.length = 32 then pure (tS (Fq.ofNat (rawScalar q bs))) else none
   -- zkAbacus establish proofs (C01, C06, C12)
   | ["est-transcript", g1, y1s, g2, x2, y2s, close, cid, cb, mb, k0, k1, k3, k4, sC, sT, szbf, szs, cC, cT, czbf, czs, ctx, legacy] => do
       let pk := mkPk (← parseFq g1) (← parseList y1s) (← parseFq g2) (← parseFq x2) (← parseList y2s)
